@@ -1,11 +1,161 @@
-import NutilsVerif.Model.C19
+import NutilsVerif.Proofs.C19WF
+import NutilsVerif.Proofs.C19ParsePrint
 /-!
-# C19 — property theorems
+# C19 — expression strings mean their index-notation reading: property theorems
+
+All statements are about the executable port `Model/C19.lean` of `nutils.expression_v2._Parser` (tied to the
+real parser string by string by the correspondence harness) and the source ASTs / printer / direct
+elaboration of `Model/C19Src.lean`.
 -/
 namespace NutilsVerif.C19
 
-/-- placeholder while the harness is being developed -/
-theorem find_offset_le_length (ms : List Matcher) (l : List Char) : (find ms l).offset ≤ l.length :=
-  find_offset_le ms l
+/-! ## the port terminates -/
+
+/-- **Termination of the port.**  `parseExpr` recurses on fuel; with any fuel above the length of the input
+neither the amount of fuel nor the answer given when fuel runs out (`base`) influences the result: the
+base case is never reached, for every string and every context.  (`parse` uses fuel `length + 1`.) -/
+theorem parse_total (Γ : Ctx) (b1 b2 : Rec) (n m : Nat) (s : Sub) (hn : s.len < n) (hm : s.len < m) :
+    parseExprB Γ b1 n s = parseExprB Γ b2 m s :=
+  parseExprB_total Γ b1 b2 n m s hn hm
+
+/-! ## `_trace`: which indices are summed -/
+
+/-- **trace_spec** (clause "repeated indices are summed or traced, free indices keep the documented order").
+For every index string, shape and set of already-summed indices: if `_trace` succeeds then the resulting
+indices are exactly the indices occurring once, in order of occurrence; an index is in the new summed set
+iff it was summed before or occurs exactly twice; and no index occurred more than twice or was summed before. -/
+theorem trace_spec (s : Sub) (ops : Ops) (shape : List Nat) (indices : List Char) (parts : List (List Char)) (r : Res)
+    (h : trace s ops shape indices parts = .ok r) :
+    r.indices = indices.filter (fun c => indices.count c == 1)
+    ∧ (∀ c, c ∈ r.summed ↔ (∃ p ∈ parts, c ∈ p) ∨ indices.count c = 2)
+    ∧ (∀ c ∈ indices, ∀ p ∈ parts, c ∉ p)
+    ∧ (∀ c, indices.count c ≤ 2) := by
+  unfold trace at h
+  obtain ⟨sm, hsm, h⟩ := bind_ok h
+  obtain ⟨h1, h2, h3, h4⟩ := traceGo_spec s indices ops [] [] sm shape r List.nodup_nil (by simp) h
+  simp only [List.nil_append] at h1 h2 h4
+  refine ⟨h1, ?_, ?_, h4⟩
+  · intro c; rw [h2 c, mergeSummed_mem s parts sm hsm c]
+  · intro c hc p hp hcp
+    exact h3 c hc ((mergeSummed_mem s parts sm hsm c).mpr ⟨p, hp, hcp⟩)
+
+/-- **reject_triple_index** (clause "an index used more than twice is rejected"), for all inputs of `_trace`:
+an index that occurs three times among the factors of a term, a variable or a call makes the parser raise. -/
+theorem reject_triple_index (s : Sub) (ops : Ops) (shape : List Nat) (indices : List Char) (parts : List (List Char)) (c : Char)
+    (h : 2 < indices.count c) : ∃ e, trace s ops shape indices parts = .error e := by
+  cases hr : trace s ops shape indices parts with
+  | error e => exact ⟨e, rfl⟩
+  | ok r => have := (trace_spec s ops shape indices parts r hr).2.2.2 c; omega
+
+/-- ... and so does an index that is used by one factor and was already summed inside another one
+(`(a_i b_i) c_i`, `f(a_i b_i) c_i`, ...). -/
+theorem reject_summed_reuse (s : Sub) (ops : Ops) (shape : List Nat) (indices : List Char) (parts : List (List Char)) (c : Char)
+    (p : List Char) (hc : c ∈ indices) (hp : p ∈ parts) (hcp : c ∈ p) : ∃ e, trace s ops shape indices parts = .error e := by
+  cases hr : trace s ops shape indices parts with
+  | error e => exact ⟨e, rfl⟩
+  | ok r => exact absurd hcp ((trace_spec s ops shape indices parts r hr).2.2.1 c hc p hp)
+
+/-- two factors that both summed the same index inside (`(a_i b_i) (c_i d_i)`) are rejected as well -/
+theorem reject_summed_twice (s : Sub) (ops : Ops) (shape : List Nat) (indices : List Char) (p q : List Char) (rest : List (List Char)) (c : Char)
+    (hp : c ∈ p) (hq : c ∈ q) : ∃ e, trace s ops shape indices (p :: q :: rest) = .error e := by
+  have hm : ∃ e, mergeSummed s (p :: q :: rest) = .error e := by
+    have h0 : List.filter (fun x => ([] : List Char).contains x) p = [] := by simp
+    simp only [mergeSummed, mergeSummedGo, h0, minChar, List.nil_append]
+    have hne : q.filter (p.contains ·) ≠ [] := by
+      intro h; rw [List.filter_eq_nil_iff] at h; exact h c hq (by simpa using hp)
+    cases hmc : minChar (q.filter (p.contains ·)) with
+    | none => exact absurd (minChar_none _ hmc) hne
+    | some d => exact ⟨_, rfl⟩
+  obtain ⟨e, he⟩ := hm
+  exact ⟨e, by simp [trace, he, Except.bind]⟩
+
+/-! ## every accepted string has sound bookkeeping (all strings, all contexts) -/
+
+/-- **parse_ok_wf** (clauses "index used more than twice ... rejected", "free indices").  For *every* string and
+context: if the parser accepts, the indices of the result are pairwise distinct lower-case letters, none of them
+is also recorded as summed (so no index was used three times across factors, fractions, powers, scopes, calls),
+and the shape has one length per index. -/
+theorem parse_ok_wf (Γ : Ctx) (l : List Char) (r : Res) (h : parse Γ l = .ok r) : r.WF :=
+  parseExpr_wf Γ (l.length + 1) ⟨0, l⟩ r h
+
+/-- sums: a term whose index *set* differs from that of the first term is rejected (for all inputs of the
+alignment step) -/
+theorem reject_sum_index_mismatch (sF sT : Sub) (indices : List Char) (iterm : Nat) (r : Res) (c : Char)
+    (h : (c ∈ indices ∧ c ∉ r.indices) ∨ (c ∈ r.indices ∧ c ∉ indices)) :
+    ∃ e, alignTerm sF sT indices iterm r = .error e := by
+  have hne : (r.indices != indices) = true := by
+    simp only [bne_iff_ne, ne_eq]
+    intro he; rw [he] at h; rcases h with h | h <;> exact h.2 h.1
+  unfold alignTerm
+  simp only [hne, if_true]
+  cases h1 : charsMinus indices r.indices with
+  | some d => exact ⟨_, rfl⟩
+  | none =>
+    cases h2 : charsMinus r.indices indices with
+    | some d => exact ⟨_, rfl⟩
+    | none =>
+      exfalso
+      rcases h with h | h
+      · exact h.2 (charsMinus_none _ _ h1 c h.1)
+      · exact h.2 (charsMinus_none _ _ h2 c h.1)
+
+/-! ## alignment of the result (`'expr' @ ns`) -/
+
+/-- **align_alphabetical**: `expr @ ns` hands `transpose` axes such that the labels of the result are the free
+indices in alphabetical order -/
+theorem align_alphabetical (r : Res) (h : r.indices.Nodup) :
+    (rmatmul r).2.Pairwise (fun a b => a.toNat ≤ b.toNat) ∧ (rmatmul r).2.Perm r.indices ∧
+    (alignAxes r.indices (rmatmul r).2).map (fun ax => r.indices.getD ax ' ') = (rmatmul r).2 := by
+  simp only [rmatmul]
+  refine ⟨?_, List.mergeSort_perm _ _, ?_⟩
+  · have := List.pairwise_mergeSort (le := fun a b : Char => decide (a.toNat ≤ b.toNat))
+      (by intro a b c; simp only [decide_eq_true_eq]; omega) (by intro a b; simp only [Bool.or_eq_true, decide_eq_true_eq]; omega) r.indices
+    exact this.imp (by intro a b hab; simpa using hab)
+  · simp only [alignAxes, List.map_map]
+    conv => rhs; rw [← List.map_id (r.indices.mergeSort _)]
+    apply List.map_congr_left
+    intro c hc
+    have hm : c ∈ r.indices := (List.mergeSort_perm _ _).mem_iff.mp hc
+    simp only [Function.comp, id]
+    have hlt := List.idxOf_lt_length_iff.mpr hm
+    rw [← List.getElem_eq_getD (h := hlt) ' ']
+    exact List.getElem_idxOf hlt
+
+/-! ## parse ∘ print -/
+
+/-- **parse_print_partial** (clauses "a namespace expression that follows the documented grammar evaluates to ...",
+"addition, juxtaposition ... have their documented precedence", "numerals select elements").
+For every context and every well-formed source AST `t` of the *core grammar* — sums with `+`, `-` and an optional
+leading minus of products by juxtaposition of unsigned integers, variables with letter / numeral indices (traces
+included) and parenthesised, jump `[ ]` and mean `{ }` sub-expressions, nested to any depth — the real parser's
+string scanning (`_Substring._find`, `split`, `isplit`, `partition_scope`, `trim`) applied to the canonical
+printing of `t` succeeds exactly when the direct elaboration `elabExpr` of the tree does, with the same operation
+tree, shape, index order and summed set.  `elabExpr` never looks at a string: it applies the bookkeeping steps
+(`trace_spec`, `alignGo`) in the order the grammar dictates.
+
+Full statement (`parse_print`, not proved): the same for the whole documented grammar — additionally fractions
+` / `, powers `^` with int / scoped exponents, decimal numbers, function calls with generated axes — and with
+`evalOps o = ⟦t⟧` (tensor semantics of the operation tree = explicit sums of the reading).  Missing: the two extra
+split levels (same technique: `find_sep` / `find_none` on `TermFacts` / `ItemFacts`), python float syntax, and the
+tensor-level theorem; these parts are covered by the correspondence streams only. -/
+theorem parse_print_partial (Γ : Ctx) (t : Src) (h : t.ok .expr = true) :
+    toOpt (parse Γ t.print) = elabExpr Γ t :=
+  parse_print_core Γ t h
+
+/-- consequence: a printed core-grammar string is rejected exactly when its tree does not elaborate -/
+theorem reject_iff_elab_none (Γ : Ctx) (t : Src) (h : t.ok .expr = true) :
+    (∃ e, parse Γ t.print = .error e) ↔ elabExpr Γ t = none := by
+  rw [← parse_print_partial Γ t h]
+  cases parse Γ t.print with
+  | error e => simp
+  | ok r => simp
+
+/-! ## non-vacuity -/
+
+/-- `-A_ij b_j + 2 (a_i)` is a well-formed tree of the core grammar -/
+example : (Src.sum true (.prod (.var ['A'] ['i', 'j']) (.pcons (.var ['b'] ['j']) .pnil))
+    (.tcons false (.prod (.num [2]) (.pcons (.paren (.sum false (.prod (.var ['a'] ['i']) .pnil) .tnil)) .pnil)) .tnil)).ok .expr = true := by decide
+
+example : ∃ r : Res, r.WF := ⟨⟨.int 1, [], [], []⟩, wf_scalar _⟩
 
 end NutilsVerif.C19
